@@ -85,6 +85,8 @@ func TestVerifC01(t *testing.T) {
 		c01Scenario("pipeline-tcp-c3-L2", tOpt{Kind: "pipeline-tcp", Callers: 3, MaxCq: 2, LazyQueue: 2, IDs: []uint16{0, 0xFFFF, 0}, Srv: srvOpt{Reorder: true, Dup: 1}}, d3),
 		c01Scenario("pipeline-udp-c2-stray", tOpt{Kind: "pipeline-udp", Callers: 2, IDs: []uint16{7, 7}, Srv: adv}, d3),
 		c01Scenario("reuse-c2-seq2-cancel-late", tOpt{Kind: "reuse", Callers: 2, Seq: 2, IDs: []uint16{5, 5, 5, 5}, CtxMode: []int{2, 0}}, d3),
+		c01Scenario("pipeline-udp-L1-c2-loss-resend", tOpt{Kind: "pipeline-udp", Callers: 2, MaxCq: 1, IDs: []uint16{3, 3}, Srv: srvOpt{AnswerAll: true, DropFirst: 1}, CtxMode: []int{1, 1}, KeepReleased: true}, d3),
+		c01Scenario("tdc-udp-c2-loss-resend", tOpt{Kind: "tdc-udp", Callers: 2, IDs: []uint16{3, 3}, Srv: srvOpt{Reorder: true, DropFirst: 1}, CtxMode: []int{1, 1}}, d3),
 		c01Scenario("reuse-c2-seq2-cancel-reorder", tOpt{Kind: "reuse", Callers: 2, Seq: 2, IDs: []uint16{5, 5, 5, 5}, Srv: srvOpt{Reorder: true}, CtxMode: []int{2, 0}}, d3),
 		c01Scenario("reuse-c1-seq3-srvclose", tOpt{Kind: "reuse", Callers: 1, Seq: 3, IDs: []uint16{0, 0xFFFF, 0}, Srv: srvOpt{CloseBudget: 1}}, d),
 	}
